@@ -24,7 +24,7 @@ import (
 // inside a blocked Send (also a select).  Exact, from goroutine states; a
 // 5 s bound makes a hang an observation.
 func waitParked(e *engine, live func(i int) bool, needSync bool) bool {
-	deadline := time.Now().Add(5 * time.Second)
+	deadline := time.Now().Add(20 * time.Second)
 	for time.Now().Before(deadline) {
 		ok := true
 		if needSync {
@@ -726,8 +726,10 @@ func (e *emitter) caseTerm(cs *Case, obs *Obs, log []evRec) string {
 func (e *emitter) run(cs *Case) {
 	cs.Obs = nil
 	obs, log := runStall(cs)
-	if obs.Bad != "" {
-		// re-executed once before it is reported (starvation on a shared machine)
+	// the case counts as observed only when every wait for the senders to park succeeded
+	// (positive evidence from the goroutine states, bound 20 s); otherwise it is re-run, up
+	// to two more times, and only a hang that reproduces is emitted (K_P tag 2 alone)
+	for try := 0; try < 2 && obs.Bad != ""; try++ {
 		e.meta.Hist("retried")
 		obs, log = runStall(cs)
 	}
